@@ -161,4 +161,135 @@ theorem reachable_dispInv (fuel : Nat) (ops : List Stmt) (r : Root) (env : List 
   have i := reachable_inv fuel ops r env h
   ⟨i.nd, i.sym, i.tree⟩
 
+/-! ### item 4 (C11): `run_node_update` never unwraps `None`
+
+`Panic.unwrapNone` is raised in one place only: the two `unwrap()`s of `run_node_update` on the
+node's `callback` and `value` (both are `None` while the node runs, `callback` is `None` for signals
+and scopes).  The extra clauses needed to exclude it (`XInv`):
+
+* a node without callback that has a value (signal, scope) is not dirty and has no dependencies;
+* a node with a callback has a value (both are taken out and put back together), so the nodes
+  without value are exactly the running ones (and those being created);
+* the update queue is empty outside `batch`, and lists allocated slots whose node, if alive, has a
+  value — i.e. is not running.
+
+`XInv` is inductive relative to `RInv` (`SafeAll`), and under `RInv ∧ XInv` no function of the mutual
+block returns `.error .unwrapNone` — for every program, including closures that dispose themselves,
+write inside memos, nest batches inside effects, … -/
+
+/-- the documented panics of the model (everything but the internal `unwrap()` and the cycle panic,
+which depends on the shape of the graph) -/
+def Documented : Panic → Prop
+  | .disposed => True      -- reading / writing a signal the program disposed
+  | .slotKey => True       -- allocating in / running in a scope the program disposed
+  | .ctxDup => True
+  | .badProgram => True    -- ill-typed DSL program
+  | .fuel => True
+  | .updating => True
+  | .cyclic => False
+  | .unwrapNone => False
+
+theorem xinv_iff (r : Root) : XInv r ↔
+    (∀ i n, r.get? i = some n →
+      (n.callback = none → n.value ≠ none → n.dirty = false) ∧
+      (n.callback = none → n.dependencies = []) ∧
+      (n.callback ≠ none → n.value ≠ none)) ∧
+    (r.batching = false → r.queue = []) ∧
+    (∀ q ∈ r.queue, ∀ n, r.get? q = some n → n.value ≠ none) ∧
+    (∀ q ∈ r.queue, q < r.nodes.size) := by
+  constructor
+  · intro h
+    exact ⟨fun i n hn => ⟨(h.node i n hn).a, (h.node i n hn).b, (h.node i n hn).c⟩, h.q1, h.q2, h.q3⟩
+  · rintro ⟨a, b, c, d⟩
+    exact ⟨fun i n hn => ⟨(a i n hn).1, (a i n hn).2.1, (a i n hn).2.2⟩, b, c, d⟩
+
+theorem inv_init_x : XInv Root.init := xinv_init
+
+/-- the question as asked: `runNodeUpdate`, called (as `propagateLoop` does) on a live dirty node that
+is not running, does not fail with `unwrapNone` — neither itself nor in any nested update — and
+re-establishes the clauses -/
+theorem runNodeUpdate_no_unwrapNone (fuel : Nat) (r : Root) (cur : Id) (hI : RInv r) (hX : XInv r)
+    (hb : r.batching = false) (hcur : ∀ n, r.get? cur = some n → n.value ≠ none ∧ n.dirty = true) :
+    runNodeUpdate fuel r cur ≠ .error .unwrapNone ∧
+    ∀ r', runNodeUpdate fuel r cur = .ok r' → XInv r' := by
+  have h := (safeAll fuel).update _ r cur hI hX hb hcur
+  constructor
+  · intro e; rw [e] at h; exact h rfl
+  · intro r' e; rw [e] at h; exact h.1
+
+/-- the propagation loop over any list of allocated nodes none of which is running -/
+theorem propagateLoop_no_unwrapNone (fuel : Nat) (r : Root) (l : List Id) (hI : RInv r) (hX : XInv r)
+    (hb : r.batching = false)
+    (hl : ∀ x ∈ l, x < r.nodes.size ∧ ∀ n, r.get? x = some n → n.value ≠ none) :
+    propagateLoop fuel r l ≠ .error .unwrapNone ∧
+    ∀ r', propagateLoop fuel r l = .ok r' → XInv r' := by
+  have h := (safeAll fuel).loop _ r l hI hX hb hl
+  constructor
+  · intro e; rw [e] at h; exact h rfl
+  · intro r' e; rw [e] at h; exact h.1
+
+/-- a write (outside or inside a batch) to a live node that has a value -/
+theorem propagateUpdates_no_unwrapNone (fuel : Nat) (r : Root) (s : Id) (hI : RInv r) (hX : XInv r)
+    (hs : ∃ n, r.get? s = some n ∧ n.value ≠ none) :
+    propagateUpdates fuel r s ≠ .error .unwrapNone ∧
+    ∀ r', propagateUpdates fuel r s = .ok r' → XInv r' := by
+  have h := (safeAll fuel).updates _ r s hI hX hs
+  constructor
+  · intro e; rw [e] at h; exact h rfl
+  · intro r' e; rw [e] at h; exact h.1
+
+/-- any statement of the DSL, in any state satisfying the invariants -/
+theorem execStmt_no_unwrapNone (fuel : Nat) (r : Root) (c : Ctx) (s : Stmt) (hI : RInv r)
+    (hE : EnvLt r.nodes.size c.env) (hX : XInv r) :
+    execStmt fuel r c s ≠ .error .unwrapNone ∧
+    ∀ r' c', execStmt fuel r c s = .ok (r', c') → XInv r' := by
+  have h := (safeAll fuel).stmt _ r c s hI hE hX
+  constructor
+  · intro e; rw [e] at h; exact h rfl
+  · intro r' c' e; rw [e] at h; exact h.1
+
+/-- disposal of any node at any point (C11: "scopes can be disposed at any point") -/
+theorem disposeNode_no_unwrapNone (fuel : Nat) (r : Root) (id : Id) (hI : RInv r) (hX : XInv r) :
+    disposeNode fuel r id ≠ .error .unwrapNone ∧
+    ∀ r', disposeNode fuel r id = .ok r' → XInv r' := by
+  have h := (safeAll fuel).dnode _ r id hI hX
+  constructor
+  · intro e; rw [e] at h; exact h rfl
+  · intro r' e; rw [e] at h; exact h.1
+
+/-- no program ever makes the model unwrap `None` -/
+theorem reachable_no_unwrapNone (fuel : Nat) (ops : List Stmt) :
+    runOps fuel ops Root.init [] ≠ .error .unwrapNone := by
+  have h := runOps_safe fuel ops Root.init [] rinv_init (by intro hd hm; cases hm) xinv_init
+  intro e; rw [e] at h; exact h rfl
+
+/-- every panic of a program run from the initial state is a documented one, or the cycle panic -/
+theorem reachable_errors (fuel : Nat) (ops : List Stmt) (e : Panic)
+    (h : runOps fuel ops Root.init [] = .error e) : Documented e ∨ e = .cyclic := by
+  cases e with
+  | unwrapNone => exact absurd h (reachable_no_unwrapNone fuel ops)
+  | cyclic => exact .inr rfl
+  | _ => exact .inl trivial
+
+theorem reachable_xinv (fuel : Nat) (ops : List Stmt) (r : Root) (env : List Handle)
+    (h : runOps fuel ops Root.init [] = .ok (r, env)) : XInv r := by
+  have h' := runOps_safe fuel ops Root.init [] rinv_init (by intro hd hm; cases hm) xinv_init
+  rw [h] at h'; exact h'
+
+/-- in a reachable state outside a batch nothing is queued, and every node without a value is a
+computation that is being run or created (it has no callback and no edges) -/
+theorem reachable_valueless (fuel : Nat) (ops : List Stmt) (r : Root) (env : List Handle)
+    (h : runOps fuel ops Root.init [] = .ok (r, env)) :
+    (r.batching = false → r.queue = []) ∧
+    ∀ i n, r.get? i = some n → n.value = none →
+      n.callback = none ∧ n.dependencies = [] ∧ ∀ a na, r.get? a = some na → i ∉ na.dependents := by
+  have hX := reachable_xinv fuel ops r env h
+  have hI := reachable_inv fuel ops r env h
+  refine ⟨hX.q1, ?_⟩
+  intro i n hn hv
+  have hd := (hI.node i n hn).run hv
+  refine ⟨Classical.byContradiction fun hc => (hX.node i n hn).c hc hv, hd, ?_⟩
+  intro a na hna
+  rw [← List.count_eq_zero, hI.sym a i na n hna hn, hd]; rfl
+
 end SycVerif.Reactive
